@@ -1,3 +1,4 @@
+pub mod alloc;
 pub mod ctx;
 pub mod prng;
 pub mod rdr;
@@ -15,10 +16,18 @@ pub mod c_wfa;
 pub mod qosref;
 pub mod c_qos;
 pub mod c_codec;
+pub mod c_plcdr;
+#[cfg(feature = "security")]
+pub mod c_auth;
+pub mod hostile;
+pub mod c_hostile;
 
 use std::path::PathBuf;
 
 use ctx::Args;
+
+#[global_allocator]
+static GLOBAL: alloc::Counting = alloc::Counting;
 
 pub fn parse_args() -> Args {
   let mut it = std::env::args().skip(1);
@@ -47,9 +56,13 @@ pub fn main_entry() -> i32 {
     "C01" | "C03" | "C05" => c_rdr::run(&args),
     "C02" => c_link::run_c02(&args),
     "C04" => c_wtr::run_c04(&args),
+    "C06" => c_hostile::run_c06(&args),
     "C08" => c_api::run_c08(&args),
     "C10" => c_qos::run_c10(&args),
     "C14" => c_codec::run_c14(&args),
+    "C15" => c_plcdr::run_c15(&args),
+    #[cfg(feature = "security")]
+    "C19" => c_auth::run_c19(&args),
     "C20" => c_wfa::run_c20(&args),
     "C09" => c_api::run_c09(&args),
     other => {
